@@ -31,7 +31,7 @@ var (
 func unattributed(c Case) []kit.Failure {
 	openOnce.Do(func() { openKF = kit.OpenFindings("C06") })
 	open := openKF
-	res := run(c)
+	res := runLocal(c)
 	var out []kit.Failure
 	for _, f := range res.Failures {
 		known := false
@@ -137,7 +137,7 @@ func nativeFuzz(t *testing.T) []Case {
 		cmd := exec.Command("go", "test", "-tags", "verif", "-run", "xxx", "-fuzz", "^"+target.name+"$", "-fuzztime", fmt.Sprintf("%ds", target.secs),
 			"-fuzzminimizetime", "2s", "-parallel", "4", "./props/c06")
 		cmd.Dir = harness
-		cmd.Env = append(os.Environ(), "GOFLAGS=-mod=mod", "GOPROXY=off", "GOSUMDB=off", "GOTOOLCHAIN=local", "VERIF_ROOT="+kit.Root, "VERIF_TIER=quick",
+		cmd.Env = append(os.Environ(), "GOFLAGS=-mod=mod", "GOPROXY=off", "GOSUMDB=off", "GOTOOLCHAIN=local", "VERIF_ROOT="+kit.Root, "VERIF_TIER=quick", noIsolateEnv+"=1",
 			"VERIF_EVIDENCE_PART="+filepath.Join(kit.Scratch, "c06-fuzz-part.json"), "VERIF_CURRENT="+filepath.Join(kit.Scratch, "c06-fuzz-current.json"))
 		t0 := time.Now()
 		outb, err := cmd.CombinedOutput()
